@@ -396,14 +396,24 @@ impl<C: ContainerValue> DynamicContainerEnv for ContainerEnv<C> {
     }
 }
 
+/// Number of shards of the container maps. `DashMap::default()` derives it from the number of
+/// CPUs available to the process; the order in which a rebuild visits containers (and hence the
+/// order in which rows are re-inserted and later scanned or printed) follows the shards, so the
+/// default made even single-threaded output depend on the machine and on CPU affinity.
+const CONTAINER_MAP_SHARDS: usize = 64;
+
+fn new_sharded_map<K: Eq + Hash, V>() -> DashMap<K, V> {
+    DashMap::with_hasher_and_shard_amount(Default::default(), CONTAINER_MAP_SHARDS)
+}
+
 impl<C: ContainerValue> ContainerEnv<C> {
     pub fn new(merge_fn: Box<dyn MergeFn>, counter: CounterId) -> Self {
         Self {
             merge_fn,
             counter,
-            to_id: DashMap::default(),
-            to_container: DashMap::default(),
-            val_index: DashMap::default(),
+            to_id: new_sharded_map(),
+            to_container: new_sharded_map(),
+            val_index: new_sharded_map(),
         }
     }
 
